@@ -10,7 +10,8 @@ from .c16 import C16
 
 IMPORTS = "From Verif Require Import Values Filters Events.\nOpen Scope string_scope."
 POOL = [["i", 0], ["b", False], ["f", "0/1"], ["i", 1], ["b", True], ["f", "1/1"], ["none"],
-        ["t", []], ["t", [1]], ["s", ""], ["s", "x"], ["i", 2], ["f", "5/2"], ["t", [1, 2]]]
+        ["t", []], ["t", [1]], ["s", ""], ["s", "x"], ["i", 2], ["f", "5/2"], ["t", [1, 2]],
+        ["m", []], ["m", [["k", 1]]]]
 _c16 = C16()
 
 
@@ -214,6 +215,11 @@ def gen_cases(run):
         mk = lambda: dict(filters=rand_filters(rng), dest=rng.randrange(3))
         on_output = [mk() for _ in range(rng.choice([0, 1, 2, 3]))] + [dict(filters=[], dest=3)]
         on_every = [mk() for _ in range(rng.choice([0, 0, 1, 2, 3]))]
+        if any(v[0] == 'm' for v in values):
+            # a data.get(k) filter would return the dict-valued item, which then REPLACES the event data
+            # (C16 covers that); the filters behind it would run on data without the standard items
+            for e in on_output + on_every:
+                e['filters'] = [['const', True] if f[0] == 'key' else f for f in e['filters']]
         cases.append(dict(sender=sender, values=values, on_output=on_output, on_every=on_every,
                           form=rng.choice(['single', 'list', 'tuple'])))
     return cases
@@ -221,7 +227,7 @@ def gen_cases(run):
 
 def check(run):
     spec = C02()
-    run.rule = ("histories of 1..20 assignments over a 14-value pool with equal-but-not-identical "
+    run.rule = ("histories of 1..20 assignments over a 16-value pool (incl. dicts {} and {'k': 1}, fresh objects each time) with equal-but-not-identical "
                 "members (0/False/0.0, 1/True/1.0, None, (), (1,), '', ...) incl. runs of equal values; "
                 "senders: Input (put), an SBlock calling set_output directly, a FuncBlock inside the "
                 "simulator loop; fan-out 0..3 events per trigger (+1 unfiltered on_output event for "
